@@ -11,6 +11,8 @@ structure DState where
   aliases : List AliasDecl := []
   opNames : List String := []
   ops : List OperatorDecl := []
+  canonCfg : CanonCfg := {}
+  canon : List Ty := []
   deriving Inhabited
 
 def DState.plang (st : DState) : PLang := { types := st.lang, aliases := st.aliases }
@@ -278,7 +280,31 @@ def stepExpr (st : DState) (e : Sexp) : Option (DState × String) :=
     pure (st, finishTyped st.lang fx (buildCTree st.lang st.ops inputs s0 t))
   | _ => none
 
+def showTys (ts : List Ty) : String := " ".intercalate (sortStrs ((dedupTy ts).map Ty.show))
+
+def stepCanon (st : DState) (e : Sexp) : Option (DState × String) :=
+  let L := st.lang
+  match e with
+  | .list (.atom "canon" :: tp :: bt :: ts) => do
+    let tp ← boolOf tp; let bt ← boolOf bt
+    let ts ← ts.mapM Sexp.ty?
+    let cfg : CanonCfg := { includeTop := tp, includeBottom := bt }
+    let c := mkCanon L cfg ts
+    pure ({ st with canonCfg := cfg, canon := c }, "ok " ++ showTys c)
+  | .list [.atom "lsucc", up, tr, t] => do
+    let up ← boolOf up; let tr ← boolOf tr; let t ← Sexp.ty? t
+    pure (st, showTys (langSucc L st.canonCfg st.canon (st.canon.length + 2) up t tr))
+  | .list [.atom "succ", up, cu, bt, tp, un, t] => do
+    let up ← boolOf up; let cu ← boolOf cu; let bt ← boolOf bt; let tp ← boolOf tp; let un ← boolOf un
+    let t ← Sexp.ty? t
+    let o : SOpts := { custom := cu, bottom := bt, top := tp, univ := if un then typeUniverse L else [] }
+    pure (st, showTys (succT L o up t))
+  | _ => none
+
 def step (st : DState) (e : Sexp) : DState × String :=
+  match stepCanon st e with
+  | some r => r
+  | none =>
   match stepExpr st e with
   | some r => r
   | none =>
